@@ -102,7 +102,8 @@ def gen_case(idx: int, seed: int, tier: str) -> Any:
     tasks = []
     for _ in range(rng.randint(2, 8)):
         tasks.append({"inside_shared_root": rng.random() < 0.5, "prog": gen_prog(rng, 0, [rng.randint(6, 25)], False)})
-    return {"kind": "stacks", "backend": rng.choice(["asyncio", "trio"]), "sched_seed": rng.randrange(1 << 30), "shuffle": rng.random() < 0.5, "tasks": tasks}
+    return {"kind": "stacks", "backend": rng.choice(["asyncio", "trio"]), "sched_seed": rng.randrange(1 << 30), "shuffle": rng.random() < 0.5, "tasks": tasks,
+            "falsy_contexts": rng.random() < 0.25}
 
 
 class Interp:
@@ -157,8 +158,20 @@ class Interp:
             got = "NoCurrentContext" if cur is None else self.name(cur, stack)
             self.bad(f"current-wrong[{where.split(' ')[0]}]", f"task {tid} {where}: current_context() is {got}, this task's stack says {exp}")
 
+    def ctx_class(self) -> Any:
+        """Context, or (falsy_contexts) a subclass whose instances are falsy - a container-like context that is empty"""
+        from asphalt.core import Context
+
+        if not self.case.get("falsy_contexts"):
+            return Context
+        if not hasattr(self, "_bag"):
+            self._bag = type("BagContext", (Context,), {"__len__": lambda self: 0})
+        return self._bag
+
     async def run(self, tid: Any, prog: list[Any], stack: list[Any], root_tid: int) -> None:
-        from asphalt.core import Context, current_context
+        from asphalt.core import current_context
+
+        Context = self.ctx_class()  # noqa: N806
 
         for step in prog:
             kind = step[0]
@@ -295,9 +308,10 @@ class Interp:
                 self.check(tid, stack, "after-spawn")
 
     async def main(self) -> None:
-        from asphalt.core import Context
-
+        Context = self.ctx_class()  # noqa: N806
         case = self.case
+        if case.get("falsy_contexts"):
+            self.inc("programs_with_falsy_contexts")
         async with create_task_group() as outer:
             ready = anyio.Event()
             release = anyio.Event()
